@@ -9,6 +9,7 @@ CONSTANTS
   WM = 8
   ConstructSlots <- Slots3
   Unbounded = FALSE
+  ViewIds <- NoViews
   Ops <- AllOps
 INVARIANTS TypeOK Refines NoAlias NoUseAfterFree NoDoubleFree NoLeak ConfigKept RoundTrip
 PROPERTIES SourceUnchanged
